@@ -316,6 +316,21 @@ pub fn check(case: &Case, w: usize) -> CheckResult {
             linked += 1;
         }
     }
+    // a quarter of the failing executables fail because their command file lacks the x bit
+    // (status `not_executable`): found when the task is scheduled, nothing is started for it
+    let mut noexec_file: Option<std::path::PathBuf> = None;
+    if let Some((fc, ft, code)) = case.failing {
+        if code % 4 == 0 {
+            let c = case.commands[pick(fc, case.commands.len())].clone();
+            let t = cfg.targets[pick(ft, cfg.targets.len())].path.clone();
+            if beh.contains_key(&(c.clone(), t.clone())) {
+                let f = explicit.get(&(c.clone(), t.clone())).cloned().unwrap_or_else(|| bb::simple_cmd_file(cfg, &t, &c));
+                use std::os::unix::fs::PermissionsExt;
+                let _ = std::fs::set_permissions(env.path(&f), std::fs::Permissions::from_mode(0o644));
+                noexec_file = Some(env.path(&f));
+            }
+        }
+    }
     let mut created: Vec<String> = vec![];
     match &case.state {
         State::NoCheckpoint => {}
@@ -412,7 +427,7 @@ pub fn check(case: &Case, w: usize) -> CheckResult {
         return inconclusive("run timed out".into());
     }
     let Some(doc) = out.json() else {
-        if out.stderr_str().contains("Lock acquisition failed") {
+        if (out.stderr_str().contains("Lock acquisition failed") || out.stderr_str().contains("Text file busy")) {
             return inconclusive(format!("run produced no JSON: {}", out.brief()));
         }
         if out.error_type() == "graph" {
@@ -426,6 +441,7 @@ pub fn check(case: &Case, w: usize) -> CheckResult {
     // with a failing executable only the statements about the result document and "at most
     // once" are judged (what must not start after a failure is C06's subject)
     let failed_mode = case.failing.is_some() && run.failed;
+    let _ = &noexec_file;
     if !failed_mode && (run.failed || out.code != Some(0)) {
         return inconclusive(format!("run failed although nothing fails: {}", out.brief()));
     }
@@ -582,6 +598,7 @@ pub fn check(case: &Case, w: usize) -> CheckResult {
         .class_if(case.via_sequence == 1, "sequence+commands")
         .class_if(case.via_sequence == 2, "a-sequence-step-given-again-with--c")
         .class_if(failed_mode, "one-executable-fails")
+        .class_if(noexec_file.is_some(), "the-failing-command-file-lacks-the-x-bit")
         .class_if(cfg.out_dir.is_some(), "out-dir-name-is-a-string-prefix-of-a-target")
         .class_if(selected.len() > 16, "selection>16")
         .class_if(selected.len() > 32, "selection>32")
